@@ -331,6 +331,7 @@ impl TwoState {
                     V::Soes(x) => (x.to_string(), vals_of(n, |m| x.value(m))),
                 };
                 out.insert("k".into(), json!(kind_of(a)));
+                out.insert("av".into(), proj(a));
                 out.insert("r".into(), json!(s.as_bytes()));
                 out.insert("vals".into(), vals);
             }
